@@ -15,6 +15,8 @@ pub mod cache;
 pub mod blocking;
 pub mod lifespan;
 pub mod deadline;
+pub mod discovery;
+pub mod worker;
 
 #[derive(Clone, Debug, Serialize, Deserialize, PartialEq)]
 pub struct Violation {
@@ -65,6 +67,8 @@ pub fn all() -> Vec<ScenarioDef> {
     v.extend(blocking::defs());
     v.extend(lifespan::defs());
     v.extend(deadline::defs());
+    v.extend(discovery::defs());
+    v.extend(worker::defs());
     v
 }
 
